@@ -199,7 +199,7 @@ def work_abstract(task):
   tmp = tempfile.mkdtemp(prefix='verif_c14_')
   stop_path = os.path.join(tmp, 'stop')
   states = set(); nconf = 0; nruns = 0; steps = 0; bad = {}; samples = []; outcomes = set(); nontriv = 0
-  choices = iteration_choices(names, two=(n >= 5))
+  choices = iteration_choices(names, two=True)
   reps = (1, 2, 3)
   try:
     for di, req in enumerate(dags(names)):
@@ -207,9 +207,11 @@ def work_abstract(task):
       for ch in choices:
         for rr in itertools.product(reps, repeat=len(ch)) if ch else [()]:
           if reduced and len(ch) == 2 and rr not in ((2, 2), (1, 2)): continue
+          if not reduced and len(ch) == 2 and rr not in ((1, 1), (2, 2), (1, 2), (2, 1), (2, 3), (3, 2)): continue
           for with_signal in ((False, True) if ch else (False,)):
             # 5 nodes (thorough): every stop schedule for repetitions 2 of a single iteration; no-signal runs for all repetitions
             if reduced and with_signal and (len(ch) == 2 or rr != (2,)): continue
+            if not reduced and with_signal and len(ch) == 2 and rr != (2, 2): continue
             iters = {}
             for j, ((ms, mode), R) in enumerate(zip(ch, rr)):
               iters['I%d' % j] = {'predicates': list(ms), 'repetitions': R, 'stop_signal': stop_path if with_signal else None, 'mode': mode}
@@ -419,7 +421,7 @@ def coverage(ctx, merged):
          'evaluation = one complete run of one configuration x stop schedule; distinct_nontrivial = distinct observed run sequences',
     configurations=s.get('configs', 0), runs=s.get('runs', 0), runs_with_repetition=s.get('nontrivial', 0),
     compiled_plans=s.get('plans', 0), sql_statements_run=s.get('statements', 0),
-    bounds=dict(nodes=4, iterations=1, repetitions=[1, 2, 3], members='2..4', stop='after every run k, before the first run, empty file',
+    bounds=dict(nodes=4, iterations='1 (all repetitions 1-3, every stop schedule) and 2 disjoint (repetition pairs (1,1),(2,2),(1,2),(2,1),(2,3),(3,2); stop schedules at (2,2))', repetitions=[1, 2, 3], members='2..4', stop='after every run k, before the first run, empty file',
                 five_nodes=('all DAGs x one iteration x repetitions 1-3 without signal, every stop schedule at repetitions 2, two iterations at repetitions (2,2),(1,2) without signal' if ctx.thorough else 'not in this tier')), cap_hit=False)
 
 
